@@ -101,8 +101,13 @@ def check_consumer(chk: Check, repo: Repo) -> None:
                 # queue was being stopped): those telegrams are processed first - the sentinel goes behind them - else
                 # they are never sent nor marked done and join() hangs after stop() returned
                 late = "EMPTY:no" in tr
+                empt = [i for i, t in enumerate(tr) if t.startswith("EMPTY:")]
                 if done != 1:
                     problems.append("the sentinel is marked done exactly once")
+                elif empt and "JOIN_OUT" not in tr[:empt[0]]:
+                    # telegrams still in the outgoing queue are sent, then given to devices and callbacks, which may
+                    # queue follow-ups: "nothing behind the sentinel" is known only once the outgoing queue is drained
+                    problems.append("the sentinel looks for telegrams queued behind it before the outgoing queue is drained: a follow-up queued by a device or callback for a telegram still in flight arrives after the look and is never processed nor marked done")
                 elif "EMPTY:yes" not in tr and not late:
                     problems.append("the sentinel ends the loop without looking for telegrams queued behind it: they are never processed nor marked done")
                 elif late and (end != "head" or "REQUEUE(None)" not in tr or "HANDOFF(None)" in tr):
